@@ -39,8 +39,8 @@ fn main() {
         }
         // 1-byte frames only: nothing to split, a handful of cases covers it.
         let tiny = fam.name == "store-initialized";
-        let frag_cases = if tiny { ctx.pick(200, 2_000) } else { ctx.pick(1_600, 64_000) };
-        let mut_cases = if tiny { ctx.pick(400, 4_000) } else { ctx.pick(6_000, 240_000) };
+        let frag_cases = if tiny { ctx.pick(200, 2_000) } else { ctx.pick(3_000, 120_000) };
+        let mut_cases = if tiny { ctx.pick(400, 4_000) } else { ctx.pick(12_000, 480_000) };
         // Development aid only (never set by ./check): scale the budgets.
         let scale: f64 = std::env::var("C10_SCALE").ok().and_then(|s| s.parse().ok()).unwrap_or(1.0);
         let frag_cases = ((frag_cases as f64 * scale) as u64).max(16);
